@@ -333,8 +333,8 @@ def interleave_rules(ctx, rep):
     for bb, i in se2.term_info.items():
         if i.get("k") == "call" and i["name"] == fn:
             Sv = strip(i["term"])
-    if Sv is None or len(loops) != 3:
-        rep.violation("interleave", fn2, "shape", "expected the stripped secret and three loops (even bytes, odd bytes, interleave), found %d loops" % len(loops), b2.loc())
+    if Sv is None or len(loops) not in (2, 3):
+        rep.violation("interleave", fn2, "shape", "expected the stripped secret and the even/odd split + interleave loops, found %d loops" % len(loops), b2.loc())
         return
     rep.check(canon(ctx, se2, Sv[2][0]) == ("param", 1), "interleave", fn2, "source", "the stripped secret of the parameter is interleaved", "as_equal_slice is not applied to the parameter")
 
@@ -349,6 +349,7 @@ def interleave_rules(ctx, rep):
     want_chains = {
         "even": [("enumerate", ()), ("step_by", (("int", 2, "usize"),)), ("iter", ())],
         "odd": [("enumerate", ()), ("step_by", (("int", 2, "usize"),)), ("skip", (("int", 1, "usize"),)), ("iter", ())],
+        "pairs": [("enumerate", ()), ("chunks_exact", (("int", 2, "usize"),))],
     }
     found = {}
     for lp in loops:
@@ -361,14 +362,34 @@ def interleave_rules(ctx, rep):
                 found[tag] = lp
         if names and names[0][0] == "enumerate" and len(names) > 1 and names[1][0] == "zip":
             found["zip"] = (lp, names, base)
-    for tag in ("even", "odd"):
-        lp = found.get(tag)
-        good = False
-        if lp is not None:
-            item = strip(lp["elem"])
-            stores = [(loc, v) for (bi, si), (loc, v) in se2.assigns.items() if loc[0] == "index" and strip(loc[2]) == ("field", item, 0)]
-            good = len(stores) == 1 and strip(stores[0][1]) == ("field", item, 1)
-        rep.check(good, "interleave", fn2, tag + "-bytes", "%s-indexed bytes of the stripped secret are collected in order" % tag, "the %s-indexed bytes are not collected by S.iter()%s.step_by(2).enumerate() into position i" % (tag, ".skip(1)" if tag == "odd" else ""), b2.loc())
+    halves = {}
+    if "pairs" in found:
+        # one pass over consecutive pairs: E[i] = pair[0], F[i] = pair[1]
+        lp = found["pairs"]
+        item = strip(lp["elem"])
+        sts = {}
+        for (bi, si), (loc, v) in se2.assigns.items():
+            if loc[0] == "index" and strip(loc[2]) == ("field", item, 0) and loc[1][0] == "local":
+                sv = strip(v)
+                if sv[0] in ("index", "cindex") and sv[1] == ("field", item, 1):
+                    k = sv[2] if sv[0] == "cindex" else (sv[2][1] if sv[2][0] == "int" else None)
+                    sts[k] = loc[1]
+        good = set(sts) == {0, 1} and sts[0] != sts[1]
+        rep.check(good, "interleave", fn2, "even-bytes", "even-indexed bytes: E[i] = S[2i] (pairs of consecutive bytes)", "the even-indexed bytes are not collected as E[i] = pair[0] over S.chunks_exact(2)", b2.loc())
+        rep.check(good, "interleave", fn2, "odd-bytes", "odd-indexed bytes: F[i] = S[2i+1]", "the odd-indexed bytes are not collected as F[i] = pair[1] over S.chunks_exact(2)", b2.loc())
+        if good:
+            halves = {"even": sts[0], "odd": sts[1]}
+    else:
+        for tag in ("even", "odd"):
+            lp = found.get(tag)
+            good = False
+            if lp is not None:
+                item = strip(lp["elem"])
+                stores = [(loc, v) for (bi, si), (loc, v) in se2.assigns.items() if loc[0] == "index" and strip(loc[2]) == ("field", item, 0)]
+                good = len(stores) == 1 and strip(stores[0][1]) == ("field", item, 1)
+                if good:
+                    halves[tag] = stores[0][0][1]
+            rep.check(good, "interleave", fn2, tag + "-bytes", "%s-indexed bytes of the stripped secret are collected in order" % tag, "the %s-indexed bytes are not collected by S.iter()%s.step_by(2).enumerate() into position i" % (tag, ".skip(1)" if tag == "odd" else ""), b2.loc())
     # the two hashes over exactly len/2 bytes
     hashes = []
     for bb, i in se2.term_info.items():
@@ -443,7 +464,7 @@ def transcripts(ctx, rep):
         rep.violation("transcript", fn, "anchor", "not found")
         return
     body = se.body
-    hs = [(bb, util.bexpr(ctx, se, i["term"]), strip(i["term"])) for bb, i in se.term_info.items() if i.get("k") == "call" and i["name"] in util.DIGEST_FINAL]
+    hs = [(bb, util.bexpr(ctx, se, i["term"]), strip(i["term"])) for bb, i in se.term_info.items() if i.get("k") == "call" and (i["name"] in util.DIGEST_FINAL or i["name"] == "<D as digest::Digest>::digest")]
     want_n = ("H", (P(1),))
     want_g = ("H", (("arr", (P(2),)),))
     hn = [h for h in hs if h[1] == util.cb(want_n)]
@@ -451,42 +472,79 @@ def transcripts(ctx, rep):
     loops = util.for_loops(ctx, se)
     good = False
     why = "digests %s" % [show_b(h[1]) for h in hs]
+
+    def peel(x):
+        x = strip(x)
+        while util.is_call(x) and (x[1] in util.IDENT_CALLS or x[1].split("::")[-1] in ("iter", "iter_mut", "into_iter")):
+            x = strip(x[2][0])
+        return x
+
     if len(hs) == 2 and len(hn) == 1 and len(hg) == 1 and len(loops) == 1:
         lp = loops[0]
-        names = []
         t = strip(lp["init_call"][2][0]) if lp["init_call"] else None
         item = strip(lp["elem"])
-        # enumerate over one digest's bytes, xor with the other's byte at the same index
-        stores = [(loc, v) for (bi, si), (loc, v) in se.assigns.items() if loc[0] == "index" and loc[1][0] == "local" and strip(loc[2]) == ("field", item, 0)]
-        if t is not None and util.is_call(t, "std::iter::Iterator::enumerate") and len(stores) == 1:
-            src = strip(t[2][0])
-            src_h = src[2][0] if util.is_call(src) else None
-            v = strip(stores[0][1])
+        hset = {hn[0][2], hg[0][2]}
+        out_local = None
+        for (bi, si), (loc, v) in se.assigns.items():
+            if v[0] == "repeat" and v[1][:2] == ("int", 0) and v[2] == 20 and loc[0] == "local":
+                out_local = loc
+        # position-wise sources of every loop component: map item projections to containers
+        comp = {}
+
+        def assign(it, proj):
+            it = strip(it)
+            if util.is_call(it) and it[1].endswith("::zip"):
+                assign(it[2][0], ("field", proj, 0))
+                assign(it[2][1], ("field", proj, 1))
+            elif util.is_call(it) and it[1].endswith("::enumerate"):
+                comp[("field", proj, 0)] = ("index",)
+                assign(it[2][0], ("field", proj, 1))
+            else:
+                c_ = peel(it)
+                raw = strip(it)
+                while util.is_call(raw) and raw[1].split("::")[-1] in ("into_iter",):
+                    raw = strip(raw[2][0])
+                if util.is_call(raw) and raw[1].endswith("::iter_mut") and raw[2][0] == ("mutref", 0):
+                    old = se.call_old.get((raw[3][:2], 0))
+                    if old is not None and strip(old)[0] == "repeat" and strip(old)[1][:2] == ("int", 0) and strip(old)[2] == 20:
+                        c_ = ("out",)
+                comp[proj] = ("elem", c_)
+
+        if t is not None:
+            assign(t, item)
+
+        def origin(x):
+            """(container, position token) of a byte operand: position is 'k' for the loop position"""
+            x = strip(x)
+            if x in comp and comp[x][0] == "elem":
+                return comp[x][1], "k"
+            if x[0] == "index" and x[2] in comp and comp[x[2]][0] == "index":
+                return peel(x[1]), "k"
+            if util.is_call(x) and x[1].endswith("::index") and strip(x[2][1]) in comp and comp[strip(x[2][1])][0] == "index":
+                return peel(x[2][0]), "k"
+            return None, None
+
+        stores = []
+        for (bi, si), (loc, v) in se.assigns.items():
+            if loc[0] == "index" and out_local is not None and loc[1] == out_local and strip(loc[2]) in comp and comp[strip(loc[2])][0] == "index":
+                stores.append(v)
+            elif loc[0] == "deref" and strip(loc[1]) in comp and comp[strip(loc[1])] == ("elem", ("out",)):
+                stores.append(v)
+        if len(stores) == 1:
+            v = strip(stores[0])
+            ops = None
             if v[0] == "binop" and v[1] == "BitXor":
                 ops = [v[2], v[3]]
-                a_ok = ("field", item, 1) in ops
-                other = [o for o in ops if o != ("field", item, 1)]
-                b_ok = False
-                if other:
-                    o = other[0]
-                    other_h = None
-                    if util.is_call(o) and o[1].endswith("::index") and strip(o[2][1]) == ("field", item, 0):
-                        other_h = strip(o[2][0])
-                    elif o[0] == "index" and o[2] == ("field", item, 0):
-                        other_h = o[1]
-
-                    def peel(x):
-                        while util.is_call(x) and x[1] in util.IDENT_CALLS:
-                            x = strip(x[2][0])
-                        return x
-
-                    if other_h is not None:
-                        other_h = peel(other_h)
-                        src_h2 = peel(src_h) if src_h is not None else None
-                        hset = {hn[0][2], hg[0][2]}
-                        b_ok = src_h2 in hset and other_h in hset and src_h2 != other_h
-                good = a_ok and b_ok
-                why = "xor[i] = H(N_le)[i] ^ H([g])[i] for every i of the 20-byte digest"
+            elif util.is_call(v) and "std::ops::BitXor" in v[1] and v[1].endswith("::bitxor"):
+                ops = [v[2][0], v[2][1]]
+            if ops is not None:
+                o1, o2 = origin(ops[0]), origin(ops[1])
+                good = {o1[0], o2[0]} == hset and o1[1] == o2[1] == "k"
+                why = "xor[k] = H(N_le)[k] ^ H([g])[k] for every position k of the 20-byte digests" if good else "xor operands come from %s / %s" % (show(o1[0], maxdepth=2) if o1[0] else "?", show(o2[0], maxdepth=2) if o2[0] else "?")
+            else:
+                why = "output byte is %s" % show(v, maxdepth=3)
+        else:
+            why = "%d stores to the output array per iteration" % len(stores)
     rep.check(good, "transcript", fn, "xor-of-hashes", why, "xor hash is not the element-wise xor of SHA1(N as 32 LE bytes) and SHA1([g]): " + why, body.loc())
 
 
